@@ -16,8 +16,8 @@ import (
 	"github.com/IrineSistiana/mosdns/v5/pkg/pool"
 	"github.com/IrineSistiana/mosdns/v5/pkg/query_context"
 	"github.com/IrineSistiana/mosdns/v5/pkg/upstream"
-	"github.com/IrineSistiana/mosdns/v5/plugin/executable/sequence"
 	fastforward "github.com/IrineSistiana/mosdns/v5/plugin/executable/forward"
+	"github.com/IrineSistiana/mosdns/v5/plugin/executable/sequence"
 	"github.com/miekg/dns"
 )
 
